@@ -68,7 +68,17 @@ UNITS["C18"] = [
          assumptions=["SWIM premise: two live peers never announce the same address; a down notification carries the identity's own address"]),
 ]
 
+UNITS["C04"] = [
+    dict(kind="verus", name="c04_needs", template="specs/c04_needs.vrs",
+         under_contract=["frag_skip", "frag_full", "frag_missing"],
+         vacuity=["frag_skip", "frag_full", "frag_missing"],
+         assumptions=["fragments of compute_available_needs are wrapped as functions over their free variables (self -> this, `continue` -> return Exit::Continue)",
+                      "contracts of RangeInclusiveSet::overlapping, HashMap::{get,entry().or_default()}, cmp::{max,min} on &newtype (lib/*.vrs)",
+                      "NOT under contract: construction of other_haves, the Partial branches (flat_map/collect closure chain)"]),
+]
+
 NOTES = {
+    "C04": "fragments of SyncStateV1::compute_available_needs: own-actor/zero-head guards, Full needs (sound + complete w.r.t. peer-held set), tail request above our head",
     "C18": "inductive transition contracts of Members (history length unbounded, state size bounded => Kani harnesses are labelled bounded)",
     "C12": "client clause only: SubscriptionStream accepts an event iff its id is last+1 and reports MissedChange otherwise",
     "C02": "bookkeeping algebra of one actor: PartialVersion completeness; gap computation; contains predicates",
